@@ -249,5 +249,5 @@ def suites(tier: str) -> t.List[Suite]:
     leaves = 8 if big else 4
     return [
         Suite('roundtrip', check, strategy=lambda: cases(gen.all_type_specs(leaves)), examples=8000 if big else 600, budget_s=480 if big else 40, render=gen.render_case),
-        Suite('overlap-unions', check, strategy=lambda: cases(gen.overlap_union_specs()), examples=3000 if big else 250, budget_s=240 if big else 25, render=gen.render_case),
+        Suite('overlap-unions', check, strategy=lambda: cases(gen.overlap_union_specs()), examples=4000 if big else 450, budget_s=300 if big else 30, render=gen.render_case),
     ]
